@@ -17,7 +17,7 @@ from verif.contracts.common import (Obligation, Result, Sym, sym_call, Interp, R
 from verif.contracts import physsys
 
 LEVEL = 'other'
-EXPECTED_MIN = {'quick': 9, 'thorough': 11}
+EXPECTED_MIN = {'quick': 12, 'thorough': 14}
 EXPLANATION = ('PROVED premises: the generalized one-step map is first-order consistent -- (q\' - q)/dt = qd\' exactly on hinge/slide dofs, pos\' = pos + dt v\' and d rot\'/d dt at dt = 0 equals '
                '(1/2) rot (x) (0, w) for free joints (jax.jvp of the real function in dt, evaluated at 0), qd\' = qd + dt qdd with (M + dt D) qdd = qf; with damping 0 '
                'the implicit term vanishes, so the scheme is semi-implicit Euler for qdd = M^-1 (passive - bias).  That M, bias are the model\'s Lagrangian terms is C02.  The drift '
